@@ -250,6 +250,62 @@ def _template_priority_case(seed):
         shutil.rmtree(d, ignore_errors=True)
 
 
+def _template_alias_case(seed):
+    """a template whose alternatives carry aliases — spelled like the template's own parameter, like a rule, like nothing else — and that uses another
+    template with its parameter: every instance must give the trees of the same rules written out by hand (only *symbols* are substituted, never alias names)"""
+    from lark import Lark, Tree
+    from lark.exceptions import GrammarError, LarkError, UnexpectedInput
+    rng = random.Random(seed)
+    P = rng.choice(['x', 'item', 'p', 'pair', 'y'])      # (a parameter spelled like a rule of the grammar is refused by lark, as documented)
+    arg = rng.choice(['A', 'val', 'B'])
+    body = rng.choice(['"(" %P ")" -> %P', '%P "," %P -> pair | %P -> %P', '"<" %P ">" -> %P | %P "," %P', 'inner{%P} %P -> %P', '%P -> val | "(" %P ")"', 'inner{%P} -> y | %P "," -> %P']).replace('%P', P)
+    tdef = 'wrapped{%s}: %s\ninner{y}: y "!" -> y\n' % (P, body)
+    rest = 'start: wrapped{%s}+\nval: A | B\nA: "a"\nB: "b"\n%%ignore " "\n' % arg
+    def written_out(b):
+        out, alias_next = [], False
+        for tok in b.split(' '):
+            if alias_next:
+                out.append(tok); alias_next = False
+            elif tok == '->':
+                out.append(tok); alias_next = True
+            elif tok == P:
+                out.append(arg)
+            elif tok == 'inner{%s}' % P:
+                out.append('inner_w')
+            else:
+                out.append(tok)
+        return ' '.join(out)
+    g1 = tdef + rest
+    g2 = 'wrapped_w: %s\ninner_w: %s "!" -> y\n' % (written_out(body), arg) + rest.replace('wrapped{%s}' % arg, 'wrapped_w')
+    out = {'with_template': g1, 'written_out': g2, 'diffs': []}
+    def canon(t):
+        if isinstance(t, Tree):
+            return [str(t.data).replace('wrapped_w', 'wrapped').replace('inner_w', 'inner'), [canon(c) for c in t.children]]
+        return None if t is None else [t.type, str(t)]
+    texts = ['a', '( a )', 'a , a', '< b >', 'a ! a', 'b !', 'a ,', '( b ) a , b'] + [' '.join(rng.choice(['a', 'b', '(', ')', ',', '<', '>', '!']) for _ in range(rng.randint(1, 5))) for _ in range(4)]
+    for kw in (dict(parser='earley', ambiguity='explicit'), dict(parser='lalr')):
+        ps = []
+        for g in (g1, g2):
+            try:
+                ps.append(Lark(g, **kw))
+            except (GrammarError, LarkError) as e:
+                ps.append('ERR ' + type(e).__name__)
+        if isinstance(ps[0], str) or isinstance(ps[1], str):
+            if ps[0] != ps[1] and (isinstance(ps[0], str) != isinstance(ps[1], str)):
+                out['diffs'].append({'parser': kw['parser'], 'construction': [x if isinstance(x, str) else 'builds' for x in ps]})
+            continue
+        for text in texts:
+            r = []
+            for p in ps:
+                try:
+                    r.append(json.dumps(canon(p.parse(text))))
+                except UnexpectedInput:
+                    r.append('reject')
+            if r[0] != r[1]:
+                out['diffs'].append({'parser': kw['parser'], 'text': text, 'with_template': r[0], 'written_out': r[1]}); break
+    return out
+
+
 def _mangle_case(args):
     prefix, aliases, names = args
     from lark.load_grammar import _get_mangle
@@ -276,6 +332,17 @@ def run(ctx, res):
             raise InfraError(r)
         if r != m:
             res.corr_break('_get_mangle differs from the Lean mangle', {'prefix': job[0], 'aliases': job[1], 'names': job[2], 'code': r, 'model': m})
+    # ---- templates with aliases (spelled like the parameter, like a rule) and nested template use vs the instance written out by hand
+    aseeds = [rng.randrange(1 << 30) for _ in range(tier_scale(ctx['tier'], 300, 3000))]
+    for seed, (st, rec) in zip(aseeds, pmap(_template_alias_case, aseeds, chunksize=8)):
+        if st != 'ok':
+            if st == 'exc' and not exc_in_lark(rec):
+                raise InfraError(rec)
+            res.violation('loading or parsing a grammar with an aliased template raised an unexpected exception', {'seed': seed, 'detail': rec}); continue
+        res.case(['template_alias', rec['with_template']], nontrivial=True)
+        res.count('aliased_template_cases')
+        for dff in rec['diffs']:
+            res.violation('a template instance does not behave like the same rules written out by hand (symbols substituted, alias names kept)', dict(dff, with_template_grammar=rec['with_template'], written_out_grammar=rec['written_out']))
     # ---- templates with a priority vs the instance written out by hand
     tseeds = [rng.randrange(1 << 30) for _ in range(tier_scale(ctx['tier'], 120, 1500))]
     for seed, (st, rec) in zip(tseeds, pmap(_template_priority_case, tseeds, chunksize=8)):
